@@ -254,6 +254,7 @@ DOC_DEFAULTS = {
     'Universal2DBoxKalmanFilter': ('src/utils/kalman/kalman_2d_box.rs', '__pymethod___new____', [('position_weight', 0.05), ('velocity_weight', 0.00625)]),
     'Point2DKalmanFilter': ('src/utils/kalman/kalman_2d_point.rs', '__pymethod___new____', [('position_weight', 0.05), ('velocity_weight', 0.00625)]),
     'Vec2DKalmanFilter': ('src/utils/kalman/kalman_2d_point_vec.rs', '__pymethod___new____', [('position_weight', 0.05), ('velocity_weight', 0.00625)]),
+    'SortPredictionBatchRequest': ('src/trackers/sort/batch_api.rs', '__pymethod_add__', [('custom_object_id', None)]),
 }
 
 
@@ -368,6 +369,13 @@ def kf_box(f):
         out.append((u.xc, u.yc, u.aspect, u.height))
     return out
 
+req = S.SortPredictionBatchRequest()
+req.add(4, S.BoundingBox(1.0, 2.0, 3.0, 4.0).as_xyaah())
+t = S.BatchSort(1, 1, 1, 5, S.PositionalMetricType.iou(0.3), 0.05, None, 0.05, 0.00625)
+res = t.predict(req)
+scene, recs = res.get()
+assert scene == 4 and recs[0].custom_object_id is None, "SortPredictionBatchRequest.add(scene, box): custom_object_id defaults to None: %r" % recs[0].custom_object_id
+
 assert kf_box(S.Universal2DBoxKalmanFilter()) == kf_box(S.Universal2DBoxKalmanFilter(0.05, 0.00625)), "Universal2DBoxKalmanFilter() differs from the documented defaults (0.05, 0.00625)"
 
 def kf_point(f):
@@ -405,7 +413,7 @@ def replay_defaults(cex, v, vm):
 for _c in DOC_DEFAULTS:
     MIR.append(MQ("c18_defaults_%s" % _c, "quick", _mk_defaults(_c),
                   "the default-argument closures pyo3 generates for %s(...) return the documented defaults" % _c,
-                  "all defaulted parameters of the constructor (exact values)", ["similari::*::python::Py%s::%s::{closure#k}" % (_c, DOC_DEFAULTS[_c][1])],
+                  "all defaulted parameters of the constructor / method (exact values)", ["similari::*::python::Py%s::%s::{closure#k}" % (_c, DOC_DEFAULTS[_c][1])],
                   spec_calls=_default_calls, replay=replay_defaults))
 
 
